@@ -827,3 +827,31 @@ VARIANTS["C13"] += [
       "            or self.tuning_status.num_trials_failed > self.max_failures\n        )",
       "            or self.max_failures < self.tuning_status.num_trials_failed\n        )"),
 ]
+
+_HB = "syne_tune/optimizer/schedulers/hyperband.py"
+VARIANTS["C14"] += [
+    B("'rungs' policy also updates at levels that are no rung levels", _HB,
+      "            if resource in self.rung_levels or resource == self.max_t:\n                # Update searcher with intermediate result",
+      "            if resource in self.rung_levels or resource <= self.max_t:\n                # Update searcher with intermediate result"),
+    B("'rungs' policy: the final level max_t is left out", _HB,
+      "            if resource in self.rung_levels or resource == self.max_t:\n                # Update searcher with intermediate result",
+      "            if resource in self.rung_levels:\n                # Update searcher with intermediate result"),
+    E("'rungs' policy: disjuncts exchanged", _HB,
+      "            if resource in self.rung_levels or resource == self.max_t:\n                # Update searcher with intermediate result",
+      "            if resource == self.max_t or resource in self.rung_levels:\n                # Update searcher with intermediate result"),
+]
+
+VARIANTS["C04"] += [
+    B("a trial that may not continue is stopped although the rung system resumes trials", _HB,
+      "                    if (not self.does_pause_resume()) or resource >= self.max_t:",
+      "                    if self.does_pause_resume() or resource >= self.max_t:"),
+    B("a trial is paused at max_t", _HB,
+      "                    if (not self.does_pause_resume()) or resource >= self.max_t:",
+      "                    if not self.does_pause_resume():"),
+    B("record released only for stopped trials", _HB,
+      "                    self._cleanup_trial(trial_id, trial_decision=trial_decision)\n                if debug_log is not None:",
+      "                    if trial_decision == SchedulerDecision.STOP:\n                        self._cleanup_trial(trial_id, trial_decision=trial_decision)\n                if debug_log is not None:"),
+    E("pause / stop arms exchanged", _HB,
+      "                    if (not self.does_pause_resume()) or resource >= self.max_t:\n                        trial_decision = SchedulerDecision.STOP\n                        act_str = \"Terminating\"\n                    else:\n                        trial_decision = SchedulerDecision.PAUSE\n                        act_str = \"Pausing\"",
+      "                    if self.does_pause_resume() and resource < self.max_t:\n                        trial_decision = SchedulerDecision.PAUSE\n                        act_str = \"Pausing\"\n                    else:\n                        trial_decision = SchedulerDecision.STOP\n                        act_str = \"Terminating\""),
+]
